@@ -174,9 +174,28 @@ def ceil_div_args(node, what):
 
 
 # ------------------------------------------------------- extraction ----
-def extract(repo):
+
+def _run_section(name, props, fn, out, failed, old_sections):
+    """Run one extraction section.  On failure the section's previous text (if any) is kept so that
+    the model still builds, and the failure is recorded for the properties the section serves."""
+    start = len(out)
+    out.append(f'(* SECTION {name} *)')
+    try:
+        fn()
+    except Fail as e:
+        del out[start + 1:]
+        failed[name] = {'error': str(e), 'properties': props}
+        if name in old_sections:
+            out.extend(old_sections[name])
+        else:
+            raise
+    out.append(f'(* END {name} *)')
+
+
+def extract(repo, old_sections):
     out = []
     emit = out.append
+    failed = {}
     emit('(* GENERATED by harness/extract.py from the working tree of /repo -- do not edit. *)')
     emit('From Coq Require Import ZArith NArith List Bool.')
     emit('Import ListNotations.')
@@ -191,584 +210,671 @@ def extract(repo):
     TFS = find_class(stream, 'TorrentFileStream')
     T = find_class(torrent, 'Torrent')
 
-    # ---- constants
-    emit('(* constants *)')
-    emit(f'Definition ex_max_open_files : Z := {const_int(class_const(TFS, "max_open_files"))}.')
-    emit(f'Definition ex_piece_size_min_default : Z := {const_int(class_const(T, "piece_size_min_default"))}.')
-    emit(f'Definition ex_piece_size_max_default : Z := {const_int(class_const(T, "piece_size_max_default"))}.')
-    emit(f'Definition ex_max_torrent_file_size : Z := {const_int(class_const(T, "MAX_TORRENT_FILE_SIZE"))}.')
 
-    # ---- _utils.is_divisible_by_16_kib
-    f = find_func(utils, 'is_divisible_by_16_kib')
-    body = [s for s in f.body if not (isinstance(s, ast.Expr) and isinstance(s.value, ast.Constant))]
-    if not (len(body) == 2 and isinstance(body[0], ast.If) and isinstance(body[1], ast.Return)
-            and len(body[0].body) == 1 and isinstance(body[0].body[0], ast.Return)
-            and isinstance(body[0].body[0].value, ast.Constant) and body[0].body[0].value.value is False
-            and not body[0].orelse):
-        fail('is_divisible_by_16_kib: unexpected shape')
-    e = Expr({'num': 'num'})
-    emit('(* _utils.is_divisible_by_16_kib *)')
-    emit(f'Definition ex_is_divisible_by_16_kib (num : Z) : bool := if {e.b(body[0].test)} then false else {e.b(body[1].value)}.')
-
-    # ---- TorrentFileStream.get_files_at_byte_range
-    f = find_func(TFS, 'get_files_at_byte_range')
-    a = only(f.body, ast.Assert, 'get_files_at_byte_range')
-    loop = only(f.body, ast.For, 'get_files_at_byte_range')
-    if not (isinstance(loop.iter, ast.Attribute) and loop.iter.attr == 'files'):
-        fail('get_files_at_byte_range: loop does not iterate over torrent.files')
-    env = {'first_byte_index': 'a', 'last_byte_index': 'b', 'pos': 'pos', 'file.size': 'sz',
-           'file_first_byte_index': 'ffb', 'file_last_byte_index': 'flb'}
-    e = Expr(env)
-    iff = only(loop.body, ast.If, 'get_files_at_byte_range loop')
-    if iff.orelse:
-        fail('get_files_at_byte_range: unexpected else')
-    aug = only(loop.body, ast.AugAssign, 'get_files_at_byte_range loop')
-    if not (isinstance(aug.target, ast.Name) and aug.target.id == 'pos' and isinstance(aug.op, ast.Add)):
-        fail('get_files_at_byte_range: pos update')
-    if loop.body.index(aug) < loop.body.index(iff):
-        fail('get_files_at_byte_range: pos updated before the test')
-    emit('(* TorrentFileStream.get_files_at_byte_range *)')
-    emit(f'Definition ex_fabr_assert (a b : Z) : bool := {e.b(a.test)}.')
-    emit(f'Definition ex_fabr_first (pos sz : Z) : Z := {e.z(assign_value(loop.body, "file_first_byte_index", "fabr"))}.')
-    emit(f'Definition ex_fabr_last (pos sz : Z) : Z := {e.z(assign_value(loop.body, "file_last_byte_index", "fabr"))}.')
-    emit(f'Definition ex_fabr_test (a b ffb flb : Z) : bool := {e.b(iff.test)}.')
-    emit(f'Definition ex_fabr_step (pos sz : Z) : Z := pos + {e.z(aug.value)}.')
-
-    # ---- get_files_at_piece_index
-    f = find_func(TFS, 'get_files_at_piece_index')
-    iff = only(f.body, ast.If, 'get_files_at_piece_index')
-    env = {'piece_index': 'i', 'piece_size': 'L'}
-    e = Expr(env)
-    emit('(* TorrentFileStream.get_files_at_piece_index *)')
-    emit(f'Definition ex_fapi_guard (i : Z) : bool := {e.b(iff.test)}.')
-    emit(f'Definition ex_fapi_start (i L : Z) : Z := {e.z(assign_value(iff.body, "piece_start_pos", "fapi"))}.')
-    emit(f'Definition ex_fapi_end (i L : Z) : Z := {e.z(assign_value(iff.body, "piece_end_pos", "fapi"))}.')
-
-    # ---- get_file_at_position
-    f = find_func(TFS, 'get_file_at_position')
-    iff = only(f.body, ast.If, 'get_file_at_position')
-    e = Expr({'position': 'position', 'pos': 'pos', 'file.size': 'sz'})
-    loop = only(iff.body, ast.For, 'get_file_at_position')
-    if not (len(loop.body) == 2 and isinstance(loop.body[0], ast.AugAssign) and isinstance(loop.body[1], ast.If)
-            and isinstance(loop.body[0].op, ast.Add)
-            and len(loop.body[1].orelse) == 1 and isinstance(loop.body[1].orelse[0], ast.AugAssign)
-            and isinstance(loop.body[1].orelse[0].op, ast.Add)):
-        fail('get_file_at_position: unexpected loop shape')
-    emit('(* TorrentFileStream.get_file_at_position *)')
-    emit(f'Definition ex_fap_guard (position : Z) : bool := {e.b(iff.test)}.')
-    emit(f'Definition ex_fap_adv (pos sz : Z) : Z := pos + {e.z(loop.body[0].value)}.')
-    emit(f'Definition ex_fap_hit (pos position : Z) : bool := {e.b(loop.body[1].test)}.')
-    emit(f'Definition ex_fap_next (pos : Z) : Z := pos + {e.z(loop.body[1].orelse[0].value)}.')
-
-    # ---- get_piece_indexes_of_file (first/last index arithmetic)
-    f = find_func(TFS, 'get_piece_indexes_of_file')
-    e = Expr({'stream_pos': 'sp', 'file.size': 'sz', 'piece_size': 'L', 'first_piece_index': 'first', 'last_piece_index': 'last'})
-    n1, d1 = floor_div_args(assign_value(f.body, 'first_piece_index', 'gpiof'), 'first_piece_index')
-    n2, d2 = floor_div_args(assign_value(f.body, 'last_piece_index', 'gpiof'), 'last_piece_index')
-    rng = assign_value(f.body, 'piece_indexes', 'gpiof')
-    if not (isinstance(rng, ast.Call) and isinstance(rng.func, ast.Name) and rng.func.id == 'list'
-            and isinstance(rng.args[0], ast.Call) and rng.args[0].func.id == 'range' and len(rng.args[0].args) == 2):
-        fail('get_piece_indexes_of_file: piece_indexes is not list(range(a, b))')
-    emit('(* TorrentFileStream.get_piece_indexes_of_file *)')
-    emit(f'Definition ex_piof_first_num (sp sz : Z) : Z := {e.z(n1)}.')
-    emit(f'Definition ex_piof_first_den (L : Z) : Z := {e.z(d1)}.')
-    emit(f'Definition ex_piof_last_num (sp sz : Z) : Z := {e.z(n2)}.')
-    emit(f'Definition ex_piof_last_den (L : Z) : Z := {e.z(d2)}.')
-    emit(f'Definition ex_piof_range_lo (first last : Z) : Z := {e.z(rng.args[0].args[0])}.')
-    emit(f'Definition ex_piof_range_hi (first last : Z) : Z := {e.z(rng.args[0].args[1])}.')
-
-    # ---- get_byte_range_of_file
-    f = find_func(TFS, 'get_byte_range_of_file')
-    ret = only(f.body, ast.Return, 'get_byte_range_of_file')
-    if not (isinstance(ret.value, ast.Tuple) and len(ret.value.elts) == 2):
-        fail('get_byte_range_of_file: return shape')
-    e = Expr({'start': 'start', 'file.size': 'sz'})
-    emit('(* TorrentFileStream.get_byte_range_of_file *)')
-    emit(f'Definition ex_brof_lo (start sz : Z) : Z := {e.z(ret.value.elts[0])}.')
-    emit(f'Definition ex_brof_hi (start sz : Z) : Z := {e.z(ret.value.elts[1])}.')
-
-    # ---- max_piece_index
-    f = find_func(TFS, 'max_piece_index')
-    ret = only(f.body, ast.Return, 'max_piece_index')
-    n, d = floor_div_args(ret.value, 'max_piece_index')
-    e = Expr({'self._torrent.size': 'size', 'self._torrent.piece_size': 'L'})
-    emit('(* TorrentFileStream.max_piece_index *)')
-    emit(f'Definition ex_mpi_num (size : Z) : Z := {e.z(n)}.')
-    emit(f'Definition ex_mpi_den (L : Z) : Z := {e.z(d)}.')
-
-    # ---- get_piece arithmetic
-    f = find_func(TFS, 'get_piece')
-    e = Expr({'piece_index': 'i', 'piece_size': 'L', 'torrent_size': 'size', 'min_piece_index': 'mn',
-              'max_piece_index': 'mx', 'first_byte_index_of_piece': 'fb', 'last_byte_index_of_piece': 'lb',
-              'file_pos': 'fpos', 'file.size': 'sz', 'exp_piece_size': 'exp'})
-    n, d = floor_div_args(assign_value(f.body, 'max_piece_index', 'get_piece'), 'get_piece.max_piece_index')
-    ifs = [s for s in f.body if isinstance(s, ast.If)]
-    if len(ifs) != 3:
-        fail(f'get_piece: expected 3 top-level ifs, found {len(ifs)}')
-    rng_if, seek_if, exp_if = ifs
-    if not (len(rng_if.body) == 1 and isinstance(rng_if.body[0], ast.Raise)):
-        fail('get_piece: range check shape')
-    if not (isinstance(seek_if.test, ast.Compare) and isinstance(seek_if.test.ops[0], ast.Eq)
-            and isinstance(seek_if.test.comparators[0], ast.Constant) and seek_if.test.comparators[0].value == 1):
-        fail('get_piece: seek branch test')
-    emit('(* TorrentFileStream.get_piece *)')
-    emit(f'Definition ex_gp_min : Z := {e.z(assign_value(f.body, "min_piece_index", "get_piece"))}.')
-    emit(f'Definition ex_gp_max_num (size : Z) : Z := {e.z(n)}.')
-    emit(f'Definition ex_gp_max_den (L : Z) : Z := {e.z(d)}.')
-    emit(f'Definition ex_gp_out_of_range (mn mx i : Z) : bool := {e.b(rng_if.test)}.')
-    emit(f'Definition ex_gp_first_byte (i L : Z) : Z := {e.z(assign_value(f.body, "first_byte_index_of_piece", "get_piece"))}.')
-    emit(f'Definition ex_gp_last_byte (fb L size : Z) : Z := {e.z(assign_value(f.body, "last_byte_index_of_piece", "get_piece"))}.')
-    emit(f'Definition ex_gp_seek_single (fb fpos : Z) : Z := {e.z(assign_value(seek_if.body, "seek_to", "get_piece"))}.')
-    emit(f'Definition ex_gp_seek_multi (fpos sz L : Z) : Z := {e.z(assign_value(seek_if.orelse, "seek_to", "get_piece"))}.')
-    emit(f'Definition ex_gp_is_last (lb size : Z) : bool := {e.b(exp_if.test)}.')
-    emit(f'Definition ex_gp_exp_last (size L : Z) : Z := {e.z(assign_value(exp_if.body, "exp_piece_size", "get_piece"))}.')
-
-    # ---- _errors.VerifyContentError overlap computation
-    VCE = find_class(errors, 'VerifyContentError')
-    f = find_func(VCE, '__init__')
-    chain = only(f.body, ast.If, 'VerifyContentError.__init__')
-    try:
-        els = chain.orelse[0].orelse
-    except (IndexError, AttributeError):
-        fail('VerifyContentError: if/elif/else chain not found')
-    loop = only(els, ast.For, 'VerifyContentError else-branch')
-    iff = only(loop.body, ast.If, 'VerifyContentError loop')
-    e = Expr({'piece_index': 'i', 'piece_size': 'L', 'err_i_beg': 'eb', 'err_i_end': 'ee', 'cur_pos': 'pos',
-              'filesize': 'sz', 'file_i_beg': 'fb', 'file_i_end': 'fe'})
-    emit('(* _errors.VerifyContentError: files covered by the corrupt piece *)')
-    emit(f'Definition ex_vce_beg (i L : Z) : Z := {e.z(assign_value(els, "err_i_beg", "VCE"))}.')
-    emit(f'Definition ex_vce_end (eb L : Z) : Z := {e.z(assign_value(els, "err_i_end", "VCE"))}.')
-    emit(f'Definition ex_vce_fbeg (pos : Z) : Z := {e.z(assign_value(loop.body, "file_i_beg", "VCE"))}.')
-    emit(f'Definition ex_vce_fend (fb sz : Z) : Z := {e.z(assign_value(loop.body, "file_i_end", "VCE"))}.')
-    emit(f'Definition ex_vce_test (eb ee fb fe : Z) : bool := {e.b(iff.test)}.')
-
-    # ---- Torrent.calculate_piece_size thresholds
-    f = find_func(T, 'calculate_piece_size')
-    chain = only(f.body[:3], ast.If, 'calculate_piece_size head')
-    table = []
-    node = chain
-    while True:
-        if not (isinstance(node.test, ast.Compare) and isinstance(node.test.left, ast.Name) and node.test.left.id == 'size'
-                and len(node.test.ops) == 1 and isinstance(node.test.ops[0], ast.LtE)):
-            fail('calculate_piece_size: threshold test shape')
-        table.append((const_int(node.test.comparators[0]), const_int(assign_value(node.body, 'max_pieces', 'cps'))))
-        if len(node.orelse) == 1 and isinstance(node.orelse[0], ast.If):
-            node = node.orelse[0]
-        else:
-            default = const_int(assign_value(node.orelse, 'max_pieces', 'cps else'))
-            break
-    emit('(* Torrent.calculate_piece_size: (size threshold, max_pieces) table and default *)')
-    emit('Definition ex_cps_table : list (Z * Z) := [' + '; '.join(f'({a}, {b})' for a, b in table) + '].')
-    emit(f'Definition ex_cps_default : Z := {default}.')
-    ret = f.body[-1]
-    if not (isinstance(ret, ast.Return) and ast.unparse(ret.value) == 'int(min(max(piece_size, min_size), max_size))'):
-        fail('calculate_piece_size: clamp expression changed: ' + ast.unparse(ret.value))
-    emit('Definition ex_cps_clamp (piece_size min_size max_size : Z) : Z := Z.min (Z.max piece_size min_size) max_size.')
-
-    # ---- Torrent.pieces / hashes digest width
-    f = find_func(T, 'hashes')
-    widths = {n.value for n in ast.walk(f) if isinstance(n, ast.Constant) and isinstance(n.value, int) and not isinstance(n.value, bool)}
-    if widths != {0, 20}:
-        fail(f'Torrent.hashes: unexpected integer literals {widths}')
-    emit('Definition ex_digest_width : Z := 20.')
-    f = find_func(T, 'pieces')
-    rets = [n for n in ast.walk(f) if isinstance(n, ast.Return)]
-    n, d = ceil_div_args(rets[0].value, 'Torrent.pieces')
-    if not (ast.unparse(n) == 'size' and ast.unparse(d) == 'piece_size'):
-        fail('Torrent.pieces: expected math.ceil(size / piece_size)')
+    def sec_constants():
+        # ---- constants
+        emit('(* constants *)')
+        emit(f'Definition ex_max_open_files : Z := {const_int(class_const(TFS, "max_open_files"))}.')
+        emit(f'Definition ex_piece_size_min_default : Z := {const_int(class_const(T, "piece_size_min_default"))}.')
+        emit(f'Definition ex_piece_size_max_default : Z := {const_int(class_const(T, "piece_size_max_default"))}.')
+        emit(f'Definition ex_max_torrent_file_size : Z := {const_int(class_const(T, "MAX_TORRENT_FILE_SIZE"))}.')
 
 
-    # ---- Torrent.validate: rule table (arguments of every utils.assert_type call) ----
-    emit('(* Torrent.validate: rule table *)')
-    emit('Inductive ex_key := XK (s : list N) | XI | XJ.')
-    emit('Inductive ex_type := XTdict | XTstr | XTbytes | XTint | XTbool | XTfloat | XTdatetime | XTiterable | XTmapping.')
-    emit('Inductive ex_check := XCnone | XC16kib | XCurl | XCmd5 | XCnonneg.')
-    emit('Record ex_rule := { xr_path : list ex_key; xr_types : list ex_type; xr_must : bool; xr_check : ex_check }.')
-    TYPES = {'dict': 'XTdict', 'str': 'XTstr', 'bytes': 'XTbytes', 'int': 'XTint', 'bool': 'XTbool', 'float': 'XTfloat',
-             'datetime': 'XTdatetime', 'utils.Iterable': 'XTiterable', 'abc.Mapping': 'XTmapping'}
-    CHECKS = {'utils.is_divisible_by_16_kib': 'XC16kib', 'utils.is_url': 'XCurl', 'utils.is_md5sum': 'XCmd5', 'utils.is_non_negative': 'XCnonneg'}
+    _run_section('constants', ['C01', 'C09', 'C19', 'C08', 'C02', 'C03', 'C04', 'C12', 'C18'], sec_constants, out, failed, old_sections)
 
-    def bytes_lit(st):
-        return '[' + '; '.join(str(b) for b in st.encode()) + ']%N'
+    def sec_is_divisible_by_16_kib():
+        # ---- _utils.is_divisible_by_16_kib
+        f = find_func(utils, 'is_divisible_by_16_kib')
+        body = [s for s in f.body if not (isinstance(s, ast.Expr) and isinstance(s.value, ast.Constant))]
+        if not (len(body) == 2 and isinstance(body[0], ast.If) and isinstance(body[1], ast.Return)
+                and len(body[0].body) == 1 and isinstance(body[0].body[0], ast.Return)
+                and isinstance(body[0].body[0].value, ast.Constant) and body[0].body[0].value.value is False
+                and not body[0].orelse):
+            fail('is_divisible_by_16_kib: unexpected shape')
+        e = Expr({'num': 'num'})
+        emit('(* _utils.is_divisible_by_16_kib *)')
+        emit(f'Definition ex_is_divisible_by_16_kib (num : Z) : bool := if {e.b(body[0].test)} then false else {e.b(body[1].value)}.')
 
-    def rule_of(call, loopvars):
-        if not (isinstance(call, ast.Call) and ast.unparse(call.func) == 'utils.assert_type'):
-            fail('validate: expected utils.assert_type call, got ' + ast.unparse(call)[:80])
-        if len(call.args) != 3 or ast.unparse(call.args[0]) != 'md':
-            fail('validate: assert_type positional arguments: ' + ast.unparse(call)[:80])
-        keys = []
-        if not isinstance(call.args[1], ast.Tuple):
-            fail('validate: keys not a tuple')
-        for k in call.args[1].elts:
-            if isinstance(k, ast.Constant) and isinstance(k.value, str):
-                keys.append('XK ' + bytes_lit(k.value))
-            elif isinstance(k, ast.Name) and k.id in loopvars:
-                keys.append(loopvars[k.id])
+
+    _run_section('is_divisible_by_16_kib', ['C07', 'C09'], sec_is_divisible_by_16_kib, out, failed, old_sections)
+
+    def sec_get_files_at_byte_range():
+        # ---- TorrentFileStream.get_files_at_byte_range
+        f = find_func(TFS, 'get_files_at_byte_range')
+        a = only(f.body, ast.Assert, 'get_files_at_byte_range')
+        loop = only(f.body, ast.For, 'get_files_at_byte_range')
+        if not (isinstance(loop.iter, ast.Attribute) and loop.iter.attr == 'files'):
+            fail('get_files_at_byte_range: loop does not iterate over torrent.files')
+        env = {'first_byte_index': 'a', 'last_byte_index': 'b', 'pos': 'pos', 'file.size': 'sz',
+               'file_first_byte_index': 'ffb', 'file_last_byte_index': 'flb'}
+        e = Expr(env)
+        iff = only(loop.body, ast.If, 'get_files_at_byte_range loop')
+        if iff.orelse:
+            fail('get_files_at_byte_range: unexpected else')
+        aug = only(loop.body, ast.AugAssign, 'get_files_at_byte_range loop')
+        if not (isinstance(aug.target, ast.Name) and aug.target.id == 'pos' and isinstance(aug.op, ast.Add)):
+            fail('get_files_at_byte_range: pos update')
+        if loop.body.index(aug) < loop.body.index(iff):
+            fail('get_files_at_byte_range: pos updated before the test')
+        emit('(* TorrentFileStream.get_files_at_byte_range *)')
+        emit(f'Definition ex_fabr_assert (a b : Z) : bool := {e.b(a.test)}.')
+        emit(f'Definition ex_fabr_first (pos sz : Z) : Z := {e.z(assign_value(loop.body, "file_first_byte_index", "fabr"))}.')
+        emit(f'Definition ex_fabr_last (pos sz : Z) : Z := {e.z(assign_value(loop.body, "file_last_byte_index", "fabr"))}.')
+        emit(f'Definition ex_fabr_test (a b ffb flb : Z) : bool := {e.b(iff.test)}.')
+        emit(f'Definition ex_fabr_step (pos sz : Z) : Z := pos + {e.z(aug.value)}.')
+
+
+    _run_section('get_files_at_byte_range', ['C11', 'C10', 'C01', 'C02', 'C18', 'C19'], sec_get_files_at_byte_range, out, failed, old_sections)
+
+    def sec_get_files_at_piece_index():
+        # ---- get_files_at_piece_index
+        f = find_func(TFS, 'get_files_at_piece_index')
+        iff = only(f.body, ast.If, 'get_files_at_piece_index')
+        env = {'piece_index': 'i', 'piece_size': 'L'}
+        e = Expr(env)
+        emit('(* TorrentFileStream.get_files_at_piece_index *)')
+        emit(f'Definition ex_fapi_guard (i : Z) : bool := {e.b(iff.test)}.')
+        emit(f'Definition ex_fapi_start (i L : Z) : Z := {e.z(assign_value(iff.body, "piece_start_pos", "fapi"))}.')
+        emit(f'Definition ex_fapi_end (i L : Z) : Z := {e.z(assign_value(iff.body, "piece_end_pos", "fapi"))}.')
+
+
+    _run_section('get_files_at_piece_index', ['C11', 'C10', 'C02', 'C18'], sec_get_files_at_piece_index, out, failed, old_sections)
+
+    def sec_get_file_at_position():
+        # ---- get_file_at_position
+        f = find_func(TFS, 'get_file_at_position')
+        iff = only(f.body, ast.If, 'get_file_at_position')
+        e = Expr({'position': 'position', 'pos': 'pos', 'file.size': 'sz'})
+        loop = only(iff.body, ast.For, 'get_file_at_position')
+        if not (len(loop.body) == 2 and isinstance(loop.body[0], ast.AugAssign) and isinstance(loop.body[1], ast.If)
+                and isinstance(loop.body[0].op, ast.Add)
+                and len(loop.body[1].orelse) == 1 and isinstance(loop.body[1].orelse[0], ast.AugAssign)
+                and isinstance(loop.body[1].orelse[0].op, ast.Add)):
+            fail('get_file_at_position: unexpected loop shape')
+        emit('(* TorrentFileStream.get_file_at_position *)')
+        emit(f'Definition ex_fap_guard (position : Z) : bool := {e.b(iff.test)}.')
+        emit(f'Definition ex_fap_adv (pos sz : Z) : Z := pos + {e.z(loop.body[0].value)}.')
+        emit(f'Definition ex_fap_hit (pos position : Z) : bool := {e.b(loop.body[1].test)}.')
+        emit(f'Definition ex_fap_next (pos : Z) : Z := pos + {e.z(loop.body[1].orelse[0].value)}.')
+
+
+    _run_section('get_file_at_position', ['C11', 'C19'], sec_get_file_at_position, out, failed, old_sections)
+
+    def sec_get_piece_indexes_of_file():
+        # ---- get_piece_indexes_of_file (first/last index arithmetic)
+        f = find_func(TFS, 'get_piece_indexes_of_file')
+        e = Expr({'stream_pos': 'sp', 'file.size': 'sz', 'piece_size': 'L', 'first_piece_index': 'first', 'last_piece_index': 'last'})
+        n1, d1 = floor_div_args(assign_value(f.body, 'first_piece_index', 'gpiof'), 'first_piece_index')
+        n2, d2 = floor_div_args(assign_value(f.body, 'last_piece_index', 'gpiof'), 'last_piece_index')
+        rng = assign_value(f.body, 'piece_indexes', 'gpiof')
+        if not (isinstance(rng, ast.Call) and isinstance(rng.func, ast.Name) and rng.func.id == 'list'
+                and isinstance(rng.args[0], ast.Call) and rng.args[0].func.id == 'range' and len(rng.args[0].args) == 2):
+            fail('get_piece_indexes_of_file: piece_indexes is not list(range(a, b))')
+        emit('(* TorrentFileStream.get_piece_indexes_of_file *)')
+        emit(f'Definition ex_piof_first_num (sp sz : Z) : Z := {e.z(n1)}.')
+        emit(f'Definition ex_piof_first_den (L : Z) : Z := {e.z(d1)}.')
+        emit(f'Definition ex_piof_last_num (sp sz : Z) : Z := {e.z(n2)}.')
+        emit(f'Definition ex_piof_last_den (L : Z) : Z := {e.z(d2)}.')
+        emit(f'Definition ex_piof_range_lo (first last : Z) : Z := {e.z(rng.args[0].args[0])}.')
+        emit(f'Definition ex_piof_range_hi (first last : Z) : Z := {e.z(rng.args[0].args[1])}.')
+
+
+    _run_section('get_piece_indexes_of_file', ['C11', 'C10', 'C02', 'C18'], sec_get_piece_indexes_of_file, out, failed, old_sections)
+
+    def sec_get_byte_range_of_file():
+        # ---- get_byte_range_of_file
+        f = find_func(TFS, 'get_byte_range_of_file')
+        ret = only(f.body, ast.Return, 'get_byte_range_of_file')
+        if not (isinstance(ret.value, ast.Tuple) and len(ret.value.elts) == 2):
+            fail('get_byte_range_of_file: return shape')
+        e = Expr({'start': 'start', 'file.size': 'sz'})
+        emit('(* TorrentFileStream.get_byte_range_of_file *)')
+        emit(f'Definition ex_brof_lo (start sz : Z) : Z := {e.z(ret.value.elts[0])}.')
+        emit(f'Definition ex_brof_hi (start sz : Z) : Z := {e.z(ret.value.elts[1])}.')
+
+
+    _run_section('get_byte_range_of_file', ['C11', 'C10'], sec_get_byte_range_of_file, out, failed, old_sections)
+
+    def sec_max_piece_index():
+        # ---- max_piece_index
+        f = find_func(TFS, 'max_piece_index')
+        ret = only(f.body, ast.Return, 'max_piece_index')
+        n, d = floor_div_args(ret.value, 'max_piece_index')
+        e = Expr({'self._torrent.size': 'size', 'self._torrent.piece_size': 'L'})
+        emit('(* TorrentFileStream.max_piece_index *)')
+        emit(f'Definition ex_mpi_num (size : Z) : Z := {e.z(n)}.')
+        emit(f'Definition ex_mpi_den (L : Z) : Z := {e.z(d)}.')
+
+
+    _run_section('max_piece_index', ['C11'], sec_max_piece_index, out, failed, old_sections)
+
+    def sec_get_piece():
+        # ---- get_piece arithmetic
+        f = find_func(TFS, 'get_piece')
+        e = Expr({'piece_index': 'i', 'piece_size': 'L', 'torrent_size': 'size', 'min_piece_index': 'mn',
+                  'max_piece_index': 'mx', 'first_byte_index_of_piece': 'fb', 'last_byte_index_of_piece': 'lb',
+                  'file_pos': 'fpos', 'file.size': 'sz', 'exp_piece_size': 'exp'})
+        n, d = floor_div_args(assign_value(f.body, 'max_piece_index', 'get_piece'), 'get_piece.max_piece_index')
+        ifs = [s for s in f.body if isinstance(s, ast.If)]
+        if len(ifs) != 3:
+            fail(f'get_piece: expected 3 top-level ifs, found {len(ifs)}')
+        rng_if, seek_if, exp_if = ifs
+        if not (len(rng_if.body) == 1 and isinstance(rng_if.body[0], ast.Raise)):
+            fail('get_piece: range check shape')
+        if not (isinstance(seek_if.test, ast.Compare) and isinstance(seek_if.test.ops[0], ast.Eq)
+                and isinstance(seek_if.test.comparators[0], ast.Constant) and seek_if.test.comparators[0].value == 1):
+            fail('get_piece: seek branch test')
+        emit('(* TorrentFileStream.get_piece *)')
+        emit(f'Definition ex_gp_min : Z := {e.z(assign_value(f.body, "min_piece_index", "get_piece"))}.')
+        emit(f'Definition ex_gp_max_num (size : Z) : Z := {e.z(n)}.')
+        emit(f'Definition ex_gp_max_den (L : Z) : Z := {e.z(d)}.')
+        emit(f'Definition ex_gp_out_of_range (mn mx i : Z) : bool := {e.b(rng_if.test)}.')
+        emit(f'Definition ex_gp_first_byte (i L : Z) : Z := {e.z(assign_value(f.body, "first_byte_index_of_piece", "get_piece"))}.')
+        emit(f'Definition ex_gp_last_byte (fb L size : Z) : Z := {e.z(assign_value(f.body, "last_byte_index_of_piece", "get_piece"))}.')
+        emit(f'Definition ex_gp_seek_single (fb fpos : Z) : Z := {e.z(assign_value(seek_if.body, "seek_to", "get_piece"))}.')
+        emit(f'Definition ex_gp_seek_multi (fpos sz L : Z) : Z := {e.z(assign_value(seek_if.orelse, "seek_to", "get_piece"))}.')
+        emit(f'Definition ex_gp_is_last (lb size : Z) : bool := {e.b(exp_if.test)}.')
+        emit(f'Definition ex_gp_exp_last (size L : Z) : Z := {e.z(assign_value(exp_if.body, "exp_piece_size", "get_piece"))}.')
+
+
+    _run_section('get_piece', ['C11', 'C19', 'C18'], sec_get_piece, out, failed, old_sections)
+
+    def sec_VerifyContentError():
+        # ---- _errors.VerifyContentError overlap computation
+        VCE = find_class(errors, 'VerifyContentError')
+        f = find_func(VCE, '__init__')
+        chain = only(f.body, ast.If, 'VerifyContentError.__init__')
+        try:
+            els = chain.orelse[0].orelse
+        except (IndexError, AttributeError):
+            fail('VerifyContentError: if/elif/else chain not found')
+        loop = only(els, ast.For, 'VerifyContentError else-branch')
+        iff = only(loop.body, ast.If, 'VerifyContentError loop')
+        e = Expr({'piece_index': 'i', 'piece_size': 'L', 'err_i_beg': 'eb', 'err_i_end': 'ee', 'cur_pos': 'pos',
+                  'filesize': 'sz', 'file_i_beg': 'fb', 'file_i_end': 'fe'})
+        emit('(* _errors.VerifyContentError: files covered by the corrupt piece *)')
+        emit(f'Definition ex_vce_beg (i L : Z) : Z := {e.z(assign_value(els, "err_i_beg", "VCE"))}.')
+        emit(f'Definition ex_vce_end (eb L : Z) : Z := {e.z(assign_value(els, "err_i_end", "VCE"))}.')
+        emit(f'Definition ex_vce_fbeg (pos : Z) : Z := {e.z(assign_value(loop.body, "file_i_beg", "VCE"))}.')
+        emit(f'Definition ex_vce_fend (fb sz : Z) : Z := {e.z(assign_value(loop.body, "file_i_end", "VCE"))}.')
+        emit(f'Definition ex_vce_test (eb ee fb fe : Z) : bool := {e.b(iff.test)}.')
+
+
+    _run_section('VerifyContentError', ['C02'], sec_VerifyContentError, out, failed, old_sections)
+
+    def sec_calculate_piece_size():
+        # ---- Torrent.calculate_piece_size thresholds
+        f = find_func(T, 'calculate_piece_size')
+        chain = only(f.body[:3], ast.If, 'calculate_piece_size head')
+        table = []
+        node = chain
+        while True:
+            if not (isinstance(node.test, ast.Compare) and isinstance(node.test.left, ast.Name) and node.test.left.id == 'size'
+                    and len(node.test.ops) == 1 and isinstance(node.test.ops[0], ast.LtE)):
+                fail('calculate_piece_size: threshold test shape')
+            table.append((const_int(node.test.comparators[0]), const_int(assign_value(node.body, 'max_pieces', 'cps'))))
+            if len(node.orelse) == 1 and isinstance(node.orelse[0], ast.If):
+                node = node.orelse[0]
             else:
-                fail('validate: unexpected key ' + ast.unparse(k))
-        types = []
-        if not isinstance(call.args[2], ast.Tuple):
-            fail('validate: types not a tuple')
-        for t in call.args[2].elts:
-            u = ast.unparse(t)
-            if u not in TYPES:
-                fail('validate: unexpected type ' + u)
-            types.append(TYPES[u])
-        must, check = 'true', 'XCnone'
-        for kw in call.keywords:
-            if kw.arg == 'must_exist' and isinstance(kw.value, ast.Constant) and isinstance(kw.value.value, bool):
-                must = 'true' if kw.value.value else 'false'
-            elif kw.arg == 'check' and ast.unparse(kw.value) in CHECKS:
-                check = CHECKS[ast.unparse(kw.value)]
-            else:
-                fail('validate: unexpected keyword ' + ast.unparse(kw))
-        return '{| xr_path := [%s]; xr_types := [%s]; xr_must := %s; xr_check := %s |}' % ('; '.join(keys), '; '.join(types), must, check)
-
-    f = find_func(T, 'validate')
-    body = [st for st in f.body if not (isinstance(st, ast.Expr) and isinstance(st.value, ast.Constant))]
-    if not (ast.unparse(body[0]) == 'md = self.metainfo' and ast.unparse(body[1]) == "info = md['info']"):
-        fail('validate: prologue changed')
-    common = []
-    idx = 2
-    while idx < len(body) and isinstance(body[idx], ast.Expr):
-        common.append(rule_of(body[idx].value, {}))
-        idx += 1
-    loop = body[idx]
-    if not (isinstance(loop, ast.For) and ast.unparse(loop.iter) == "enumerate(md.get('announce-list', ()))"):
-        fail('validate: announce-list loop not found where expected')
-    if not (len(loop.body) == 2 and isinstance(loop.body[0], ast.Expr) and isinstance(loop.body[1], ast.For)
-            and ast.unparse(loop.body[1].iter) == "enumerate(md['announce-list'][i])" and len(loop.body[1].body) == 1):
-        fail('validate: announce-list loop shape')
-    al_i = rule_of(loop.body[0].value, {'i': 'XI'})
-    al_ij = rule_of(loop.body[1].body[0].value, {'i': 'XI', 'j': 'XJ'})
-    chain = body[idx + 1]
-    if idx + 2 != len(body) or not isinstance(chain, ast.If):
-        fail('validate: expected a single if/elif chain after the announce-list loop')
-    tests = []
-    node = chain
-    branches = []
-    while True:
-        tests.append(ast.unparse(node.test))
-        branches.append(node.body)
-        if len(node.orelse) == 1 and isinstance(node.orelse[0], ast.If):
-            node = node.orelse[0]
-        else:
-            final_else = node.orelse
-            break
-    exp_tests = ["len(info['pieces']) == 0", "len(info['pieces']) % 20 != 0", "'length' in info and 'files' in info",
-                 "'length' in info", "'files' in info"]
-    if tests != exp_tests:
-        fail(f'validate: branch tests changed: {tests}')
-    for b in branches[:3] + [final_else]:
-        if not (len(b) == 1 and isinstance(b[0], ast.Raise) and 'MetainfoError' in ast.unparse(b[0])):
-            fail('validate: expected a single raise MetainfoError in a structural branch')
-    single = branches[3]
-    srules = []
-    k = 0
-    while k < len(single) and isinstance(single[k], ast.Expr):
-        srules.append(rule_of(single[k].value, {}))
-        k += 1
-    rest = [ast.unparse(x) for x in single[k:k + 3]]
-    if not (rest[0] == "piece_count = int(len(info['pieces']) / 20)"
-            and rest[1] == "exp_piece_count = -(-info['length'] // info['piece length'])"
-            and rest[2].startswith('if piece_count != exp_piece_count:')):
-        fail('validate: singlefile piece count check changed: ' + repr(rest))
-    if not (len(single) == k + 4 and ast.unparse(single[k + 3].test) == 'self.path is not None'):
-        fail('validate: singlefile path check shape')
-    multi = branches[4]
-    if not (isinstance(multi[0], ast.Expr) and isinstance(multi[1], ast.For)
-            and ast.unparse(multi[1].iter) == "enumerate(info['files'])"):
-        fail('validate: multifile branch shape')
-    files_rule = rule_of(multi[0].value, {})
-    frules = []
-    for st in multi[1].body:
-        if isinstance(st, ast.Expr):
-            frules.append(rule_of(st.value, {'i': 'XI'}))
-        elif isinstance(st, ast.For) and ast.unparse(st.iter) == "enumerate(fileinfo['path'])" and len(st.body) == 1:
-            path_rule = rule_of(st.body[0].value, {'i': 'XI', 'j': 'XJ'})
-        else:
-            fail('validate: unexpected statement in files loop: ' + ast.unparse(st)[:80])
-    rest = [ast.unparse(x) for x in multi[2:5]]
-    if not (rest[0] == "piece_count = int(len(info['pieces']) / 20)"
-            and rest[1] == "exp_piece_count = -(-sum((fileinfo['length'] for fileinfo in info['files'])) // info['piece length'])"
-            and rest[2].startswith('if piece_count != exp_piece_count:')):
-        fail('validate: multifile piece count check changed: ' + repr(rest))
-    if not (len(multi) == 6 and ast.unparse(multi[5].test) == 'self.path is not None'):
-        fail('validate: multifile path check shape')
-    emit('Definition ex_rules_common : list ex_rule := [' + ';\n  '.join(common) + '].')
-    emit('Definition ex_rule_al_i : ex_rule := ' + al_i + '.')
-    emit('Definition ex_rule_al_ij : ex_rule := ' + al_ij + '.')
-    emit('Definition ex_rules_single : list ex_rule := [' + ';\n  '.join(srules) + '].')
-    emit('Definition ex_rule_files : ex_rule := ' + files_rule + '.')
-    emit('Definition ex_rules_file_i : list ex_rule := [' + ';\n  '.join(frules) + '].')
-    emit('Definition ex_rule_path_j : ex_rule := ' + path_rule + '.')
-
-    # ---- _utils.ENCODE_ALLOWED_TYPES / ENCODE_CONVERTERS (dispatch order) ----
-    conv = None
-    allowed = None
-    for n in utils.body:
-        if isinstance(n, ast.Assign) and len(n.targets) == 1 and isinstance(n.targets[0], ast.Name):
-            if n.targets[0].id == 'ENCODE_CONVERTERS':
-                conv = n.value
-            if n.targets[0].id == 'ENCODE_ALLOWED_TYPES':
-                allowed = n.value
-    if conv is None or allowed is None or not isinstance(conv, ast.Dict):
-        fail('ENCODE_CONVERTERS / ENCODE_ALLOWED_TYPES not found')
-    if ast.unparse(allowed) != '(bytes, int)':
-        fail('ENCODE_ALLOWED_TYPES changed: ' + ast.unparse(allowed))
-    got = [(ast.unparse(k), ast.unparse(v)) for k, v in zip(conv.keys, conv.values)]
-    want = [('str', "lambda val: str(val).encode(encoding='utf-8', errors='replace')"), ('float', 'int'), ('bool', 'int'),
-            ('collections.abc.Mapping', 'encode_dict'), ('collections.abc.Sequence', 'encode_list'),
-            ('collections.abc.Collection', 'encode_list'), ('datetime', 'lambda dt: int(dt.timestamp())')]
-    if got != want:
-        fail(f'ENCODE_CONVERTERS changed: {got}')
-    emit('(* _utils.ENCODE_CONVERTERS: checked to be the table the model implements (str, float, bool, Mapping, Sequence, Collection, datetime) *)')
-    emit('Definition ex_converters_checked : bool := true.')
-    ed = find_func(utils, 'encode_dict')
-    if ast.unparse(ed).replace(' ', '').replace('\n', '') != ("defencode_dict(dct):dct_enc=collections.OrderedDict()forkeyindct:ifnotisinstance(key,str):raiseValueError(f'Invalidkey:{key!r}')"
-            "forkey,valueinsorted(dct.items()):key_enc=str(key).encode('utf8')value_enc=encode_value(value)"
-            "dct_enc[key_enc]=value_encreturndct_enc"):
-        fail('encode_dict changed')
-    ev = find_func(utils, 'encode_value')
-    if ast.unparse(ev).replace(' ', '').replace('\n', '') != ("defencode_value(value):iftype(value)inENCODE_ALLOWED_TYPES:returnvalueelse:"
-            "forcls,converterinENCODE_CONVERTERS.items():ifisinstance(value,cls):returnconverter(value)raiseValueError(f'Invalidvalue:{value!r}')"):
-        fail('encode_value changed')
+                default = const_int(assign_value(node.orelse, 'max_pieces', 'cps else'))
+                break
+        emit('(* Torrent.calculate_piece_size: (size threshold, max_pieces) table and default *)')
+        emit('Definition ex_cps_table : list (Z * Z) := [' + '; '.join(f'({a}, {b})' for a, b in table) + '].')
+        emit(f'Definition ex_cps_default : Z := {default}.')
+        ret = f.body[-1]
+        if not (isinstance(ret, ast.Return) and ast.unparse(ret.value) == 'int(min(max(piece_size, min_size), max_size))'):
+            fail('calculate_piece_size: clamp expression changed: ' + ast.unparse(ret.value))
+        emit('Definition ex_cps_clamp (piece_size min_size max_size : Z) : Z := Z.min (Z.max piece_size min_size) max_size.')
 
 
-    # ---- Torrent.write / write_stream / dump / read_stream: order of effects ----
-    emit('(* Torrent.write / write_stream / dump: order of effects *)')
-    emit('Inductive ex_wstep := WCheckExists | WDump | WOpenWrite.')
-    emit('Inductive ex_sstep := SDump | SSeekTruncate | SWrite.')
-    emit('Inductive ex_dstep := DValidate | DConvertEncode.')
-    f = find_func(T, 'write')
-    steps = []
-    for st in f.body:
-        u = ast.unparse(st)
-        if isinstance(st, ast.Expr) and isinstance(st.value, ast.Constant):
-            continue
-        if isinstance(st, ast.If) and u.startswith('if not overwrite and os.path.exists(filepath):') and 'raise error.WriteError(errno.EEXIST, filepath)' in u:
-            steps.append('WCheckExists')
-        elif u == 'content = io.BytesIO()' or u == 'content.seek(0)':
-            continue
-        elif u == 'self.write_stream(content, validate=validate)':
-            steps.append('WDump')
-        elif isinstance(st, ast.Try) and "open(filepath, 'wb')" in u and 'f.write(content.read())' in u and 'raise error.WriteError(e.errno, filepath)' in u:
-            steps.append('WOpenWrite')
-        else:
-            fail('Torrent.write: unexpected statement: ' + u[:100])
-    if sorted(steps) != sorted(['WCheckExists', 'WDump', 'WOpenWrite']):
-        fail(f'Torrent.write: steps {steps}')
-    emit('Definition ex_write_steps : list ex_wstep := [' + '; '.join(steps) + '].')
-    f = find_func(T, 'write_stream')
-    steps = []
-    for st in f.body:
-        u = ast.unparse(st)
-        if isinstance(st, ast.Expr) and isinstance(st.value, ast.Constant):
-            continue
-        if u == 'content = self.dump(validate=validate)':
-            steps.append('SDump')
-        elif isinstance(st, ast.Try) and 'raise error.WriteError(e.errno)' in u:
-            for t in st.body:
-                tu = ast.unparse(t)
-                if isinstance(t, ast.If) and ast.unparse(t.test) == 'stream.seekable()' and [ast.unparse(x) for x in t.body] == ['stream.seek(0)', 'stream.truncate(0)']:
-                    steps.append('SSeekTruncate')
-                elif tu == 'stream.write(content)':
-                    steps.append('SWrite')
+    _run_section('calculate_piece_size', ['C09'], sec_calculate_piece_size, out, failed, old_sections)
+
+    def sec_hashes_pieces():
+        # ---- Torrent.pieces / hashes digest width
+        f = find_func(T, 'hashes')
+        widths = {n.value for n in ast.walk(f) if isinstance(n, ast.Constant) and isinstance(n.value, int) and not isinstance(n.value, bool)}
+        if widths != {0, 20}:
+            fail(f'Torrent.hashes: unexpected integer literals {widths}')
+        emit('Definition ex_digest_width : Z := 20.')
+        f = find_func(T, 'pieces')
+        rets = [n for n in ast.walk(f) if isinstance(n, ast.Return)]
+        n, d = ceil_div_args(rets[0].value, 'Torrent.pieces')
+        if not (ast.unparse(n) == 'size' and ast.unparse(d) == 'piece_size'):
+            fail('Torrent.pieces: expected math.ceil(size / piece_size)')
+
+
+
+    _run_section('hashes_pieces', ['C01', 'C02', 'C09'], sec_hashes_pieces, out, failed, old_sections)
+
+    def sec_validate_rules():
+        # ---- Torrent.validate: rule table (arguments of every utils.assert_type call) ----
+        emit('(* Torrent.validate: rule table *)')
+        emit('Inductive ex_key := XK (s : list N) | XI | XJ.')
+        emit('Inductive ex_type := XTdict | XTstr | XTbytes | XTint | XTbool | XTfloat | XTdatetime | XTiterable | XTmapping.')
+        emit('Inductive ex_check := XCnone | XC16kib | XCurl | XCmd5 | XCnonneg.')
+        emit('Record ex_rule := { xr_path : list ex_key; xr_types : list ex_type; xr_must : bool; xr_check : ex_check }.')
+        TYPES = {'dict': 'XTdict', 'str': 'XTstr', 'bytes': 'XTbytes', 'int': 'XTint', 'bool': 'XTbool', 'float': 'XTfloat',
+                 'datetime': 'XTdatetime', 'utils.Iterable': 'XTiterable', 'abc.Mapping': 'XTmapping'}
+        CHECKS = {'utils.is_divisible_by_16_kib': 'XC16kib', 'utils.is_url': 'XCurl', 'utils.is_md5sum': 'XCmd5', 'utils.is_non_negative': 'XCnonneg'}
+
+        def bytes_lit(st):
+            return '[' + '; '.join(str(b) for b in st.encode()) + ']%N'
+
+        def rule_of(call, loopvars):
+            if not (isinstance(call, ast.Call) and ast.unparse(call.func) == 'utils.assert_type'):
+                fail('validate: expected utils.assert_type call, got ' + ast.unparse(call)[:80])
+            if len(call.args) != 3 or ast.unparse(call.args[0]) != 'md':
+                fail('validate: assert_type positional arguments: ' + ast.unparse(call)[:80])
+            keys = []
+            if not isinstance(call.args[1], ast.Tuple):
+                fail('validate: keys not a tuple')
+            for k in call.args[1].elts:
+                if isinstance(k, ast.Constant) and isinstance(k.value, str):
+                    keys.append('XK ' + bytes_lit(k.value))
+                elif isinstance(k, ast.Name) and k.id in loopvars:
+                    keys.append(loopvars[k.id])
                 else:
-                    fail('write_stream: unexpected statement in try: ' + tu[:100])
-        else:
-            fail('write_stream: unexpected statement: ' + u[:100])
-    if sorted(steps) != sorted(['SDump', 'SSeekTruncate', 'SWrite']):
-        fail(f'write_stream: steps {steps}')
-    emit('Definition ex_write_stream_steps : list ex_sstep := [' + '; '.join(steps) + '].')
-    f = find_func(T, 'dump')
-    body = [st for st in f.body if not (isinstance(st, ast.Expr) and isinstance(st.value, ast.Constant))]
-    if [' '.join(ast.unparse(x).split()) for x in body] != ['if validate: self.validate()', 'metainfo = self.convert()',
-            'try: return bencode.encode(metainfo) except ValueError as e: raise error.MetainfoError(e)']:
-        fail('Torrent.dump changed: ' + repr([ast.unparse(x) for x in body]))
-    emit('Definition ex_dump_steps : list ex_dstep := [DValidate; DConvertEncode].')
-    f = find_func(T, 'convert')
-    body = [st for st in f.body if not (isinstance(st, ast.Expr) and isinstance(st.value, ast.Constant))]
-    if ast.unparse(body[0]).replace('\n', ' ').split() != 'try: return utils.encode_dict(self.metainfo) except (ValueError, OverflowError) as e: raise error.MetainfoError(e)'.split():
-        fail('Torrent.convert changed')
-    f = find_func(T, 'is_ready')
-    body = [st for st in f.body if not (isinstance(st, ast.Expr) and isinstance(st.value, ast.Constant))]
-    if ast.unparse(body[0]).split() != 'try: self.validate() except error.MetainfoError: return False else: return True'.split():
-        fail('Torrent.is_ready changed')
-    f = find_func(T, 'infohash')
-    body = [st for st in f.body if not (isinstance(st, ast.Expr) and isinstance(st.value, ast.Constant))]
-    want = ("try: try: self.validate() try: info = bencode.encode(utils.encode_dict(self.metainfo['info'])) except (ValueError, OverflowError) as e: raise error.MetainfoError(e) "
-            "else: return hashlib.sha1(info).hexdigest() except error.MetainfoError as e: try: return self._infohash "
-            "except AttributeError: raise e")
-    got = ast.unparse(body[0]).split()
-    if got[0:2] == ['try:', 'try:']:
-        got = got[1:]   # tolerate the nested/unnested spelling difference of ast.unparse
-    if ' '.join(got) != ' '.join(want.split()[1:]):
-        fail('Torrent.infohash changed: ' + ' '.join(got)[:300])
+                    fail('validate: unexpected key ' + ast.unparse(k))
+            types = []
+            if not isinstance(call.args[2], ast.Tuple):
+                fail('validate: types not a tuple')
+            for t in call.args[2].elts:
+                u = ast.unparse(t)
+                if u not in TYPES:
+                    fail('validate: unexpected type ' + u)
+                types.append(TYPES[u])
+            must, check = 'true', 'XCnone'
+            for kw in call.keywords:
+                if kw.arg == 'must_exist' and isinstance(kw.value, ast.Constant) and isinstance(kw.value.value, bool):
+                    must = 'true' if kw.value.value else 'false'
+                elif kw.arg == 'check' and ast.unparse(kw.value) in CHECKS:
+                    check = CHECKS[ast.unparse(kw.value)]
+                else:
+                    fail('validate: unexpected keyword ' + ast.unparse(kw))
+            return '{| xr_path := [%s]; xr_types := [%s]; xr_must := %s; xr_check := %s |}' % ('; '.join(keys), '; '.join(types), must, check)
 
-
-    # ---- Torrent.read_stream: which exceptions of the decoder / converters are mapped to documented errors ----
-    f = find_func(T, 'read_stream')
-    src = ast.unparse(f)
-    tries = [n for n in ast.walk(f) if isinstance(n, ast.Try)]
-    dec = [t for t in tries if any(ast.unparse(x) == 'metainfo_enc = bencode.decode(content)' for x in t.body)]
-    if len(dec) != 1 or len(dec[0].handlers) != 1 or ast.unparse(dec[0].handlers[0].body[0]) != 'raise error.BdecodeError()':
-        fail('read_stream: try around bencode.decode not found')
-    ht = dec[0].handlers[0].type
-    names = [ast.unparse(x) for x in (ht.elts if isinstance(ht, ast.Tuple) else [ht])]
-    NM = {'bencode.DecodingError': 'XDecodingError', 'ValueError': 'XValueError', 'OverflowError': 'XOverflowError', 'MemoryError': 'XMemoryError'}
-    for n in names:
-        if n not in NM:
-            fail('read_stream: unexpected exception caught around decode: ' + n)
-    emit('(* Torrent.read_stream: exceptions mapped to documented errors *)')
-    emit('Inductive ex_exc := XDecodingError | XValueError | XOverflowError | XMemoryError | XRecursionError | XOSError.')
-    emit('Definition ex_read_decode_catches : list ex_exc := [' + '; '.join(NM[n] for n in names) + '].')
-    rec = [t for t in tries if any('utils.decode_dict(metainfo_enc)' in ast.unparse(x) for x in t.body)
-           and t is not dec[0]]
-    rc = []
-    if rec:
-        if not (len(rec) == 1 and len(rec[0].handlers) == 1 and ast.unparse(rec[0].handlers[0].body[0]) == 'raise error.BdecodeError()'):
-            fail('read_stream: unexpected try around decode_dict')
-        ht = rec[0].handlers[0].type
-        for n in [ast.unparse(x) for x in (ht.elts if isinstance(ht, ast.Tuple) else [ht])]:
-            if n != 'RecursionError':
-                fail('read_stream: unexpected exception caught around decode_dict: ' + n)
-            rc.append('XRecursionError')
-    emit('Definition ex_read_convert_catches : list ex_exc := [' + '; '.join(rc) + '].')
-    cd = [t for t in tries if any("torrent.creation_date = metainfo_enc[b'creation date']" in ast.unparse(x) for x in t.body)]
-    cc = []
-    if cd:
-        if not (len(cd) == 1 and len(cd[0].handlers) == 1 and ast.unparse(cd[0].handlers[0].body[0]).startswith('raise error.MetainfoError(')):
-            fail('read_stream: unexpected try around creation_date')
-        ht = cd[0].handlers[0].type
-        M2 = {'ValueError': 'XValueError', 'OverflowError': 'XOverflowError', 'OSError': 'XOSError'}
-        for n in [ast.unparse(x) for x in (ht.elts if isinstance(ht, ast.Tuple) else [ht])]:
-            if n not in M2:
-                fail('read_stream: unexpected exception caught around creation_date: ' + n)
-            cc.append(M2[n])
-    elif "torrent.creation_date = metainfo_enc[b'creation date']" not in src:
-        fail('read_stream: creation date assignment not found')
-    emit('Definition ex_read_cdate_catches : list ex_exc := [' + '; '.join(cc) + '].')
-    if "utils.assert_type(metainfo, ('info',), (dict,), must_exist=validate)" not in src:
-        fail('read_stream: info-is-dict assertion not found')
-    order = [src.index("utils.assert_type(metainfo, ('info',), (dict,), must_exist=validate)"), src.index("torrent.creation_date = metainfo_enc[b'creation date']"),
-             src.index("torrent.private = metainfo_enc[b'info'][b'private']"), src.index('torrent.validate()')]
-    if order != sorted(order):
-        fail('read_stream: order of info assertion / creation date / private / validate changed')
-
-
-    # ---- _magnet.py: regexes (via re._parser), match methods, parameter tables ----
-    import re as _re
-    import re._parser as _sp
-    import re._constants as _sc
-    magnet = parse(repo, 'torf/_magnet.py')
-    MG = find_class(magnet, 'Magnet')
-
-    def regex_of(name):
-        node = class_const(MG, name)
-        if not (isinstance(node, ast.Call) and ast.unparse(node.func) == 're.compile' and isinstance(node.args[0], ast.Constant)):
-            fail(f'{name}: not a re.compile(<literal>) call')
-        flags = 0
-        for kw in node.keywords:
-            if kw.arg != 'flags':
-                fail(f'{name}: unexpected keyword')
-            for part in ast.unparse(kw.value).split('|'):
-                part = part.strip()
-                if part not in ('re.IGNORECASE', 're.ASCII', 're.I', 're.A'):
-                    fail(f'{name}: unsupported flag {part}')
-                flags |= _re.IGNORECASE if part in ('re.IGNORECASE', 're.I') else _re.ASCII
-        return node.args[0].value, flags
-
-    def expand(lo, hi, flags):
-        out = [(lo, hi)]
-        if flags & _re.IGNORECASE:
-            for a, b, d in ((97, 122, -32), (65, 90, 32)):
-                l2, h2 = max(lo, a), min(hi, b)
-                if l2 <= h2:
-                    out.append((l2 + d, h2 + d))
-            if not flags & _re.ASCII:
-                letters = set()
-                for (l2, h2) in list(out):
-                    letters.update(chr(c).lower() for c in range(max(l2, 65), min(h2, 122) + 1))
-                if 's' in letters:
-                    out.append((0x17f, 0x17f))
-                if 'k' in letters:
-                    out.append((0x212a, 0x212a))
-                if 'i' in letters:
-                    out.append((0x130, 0x131))
-        return out
-
-    def conv(items, flags):
-        res = []
-        for op, av in items:
-            if op is _sc.AT:
-                res.append({_sc.AT_BEGINNING: 'RBol', _sc.AT_END: 'REnd', _sc.AT_END_STRING: 'REndZ'}.get(av) or fail(f'regex: unsupported anchor {av}'))
-            elif op is _sc.LITERAL:
-                res.append('RCls [' + '; '.join(f'({a}, {b})' for a, b in expand(av, av, flags)) + ']')
-            elif op is _sc.IN:
-                rs = []
-                for o2, a2 in av:
-                    if o2 is _sc.RANGE:
-                        rs += expand(a2[0], a2[1], flags)
-                    elif o2 is _sc.LITERAL:
-                        rs += expand(a2, a2, flags)
-                    else:
-                        fail(f'regex: unsupported class item {o2}')
-                res.append('RCls [' + '; '.join(f'({a}, {b})' for a, b in rs) + ']')
-            elif op is _sc.MAX_REPEAT:
-                lo, hi, sub = av
-                if lo != hi:
-                    fail('regex: only exact repetition {n} is supported')
-                res.append(f'RRep {lo} (RSeq [' + '; '.join(conv(sub, flags)) + '])')
-            elif op is _sc.BRANCH:
-                res.append('RAlt [' + '; '.join('RSeq [' + '; '.join(conv(alt, flags)) + ']' for alt in av[1]) + ']')
-            elif op is _sc.SUBPATTERN:
-                res.append('RGroup (RSeq [' + '; '.join(conv(av[3], flags)) + '])')
+        f = find_func(T, 'validate')
+        body = [st for st in f.body if not (isinstance(st, ast.Expr) and isinstance(st.value, ast.Constant))]
+        if not (ast.unparse(body[0]) == 'md = self.metainfo' and ast.unparse(body[1]) == "info = md['info']"):
+            fail('validate: prologue changed')
+        common = []
+        idx = 2
+        while idx < len(body) and isinstance(body[idx], ast.Expr):
+            common.append(rule_of(body[idx].value, {}))
+            idx += 1
+        loop = body[idx]
+        if not (isinstance(loop, ast.For) and ast.unparse(loop.iter) == "enumerate(md.get('announce-list', ()))"):
+            fail('validate: announce-list loop not found where expected')
+        if not (len(loop.body) == 2 and isinstance(loop.body[0], ast.Expr) and isinstance(loop.body[1], ast.For)
+                and ast.unparse(loop.body[1].iter) == "enumerate(md['announce-list'][i])" and len(loop.body[1].body) == 1):
+            fail('validate: announce-list loop shape')
+        al_i = rule_of(loop.body[0].value, {'i': 'XI'})
+        al_ij = rule_of(loop.body[1].body[0].value, {'i': 'XI', 'j': 'XJ'})
+        chain = body[idx + 1]
+        if idx + 2 != len(body) or not isinstance(chain, ast.If):
+            fail('validate: expected a single if/elif chain after the announce-list loop')
+        tests = []
+        node = chain
+        branches = []
+        while True:
+            tests.append(ast.unparse(node.test))
+            branches.append(node.body)
+            if len(node.orelse) == 1 and isinstance(node.orelse[0], ast.If):
+                node = node.orelse[0]
             else:
-                fail(f'regex: unsupported opcode {op}')
-        return res
+                final_else = node.orelse
+                break
+        exp_tests = ["len(info['pieces']) == 0", "len(info['pieces']) % 20 != 0", "'length' in info and 'files' in info",
+                     "'length' in info", "'files' in info"]
+        if tests != exp_tests:
+            fail(f'validate: branch tests changed: {tests}')
+        for b in branches[:3] + [final_else]:
+            if not (len(b) == 1 and isinstance(b[0], ast.Raise) and 'MetainfoError' in ast.unparse(b[0])):
+                fail('validate: expected a single raise MetainfoError in a structural branch')
+        single = branches[3]
+        srules = []
+        k = 0
+        while k < len(single) and isinstance(single[k], ast.Expr):
+            srules.append(rule_of(single[k].value, {}))
+            k += 1
+        rest = [ast.unparse(x) for x in single[k:k + 3]]
+        if not (rest[0] == "piece_count = int(len(info['pieces']) / 20)"
+                and rest[1] == "exp_piece_count = -(-info['length'] // info['piece length'])"
+                and rest[2].startswith('if piece_count != exp_piece_count:')):
+            fail('validate: singlefile piece count check changed: ' + repr(rest))
+        if not (len(single) == k + 4 and ast.unparse(single[k + 3].test) == 'self.path is not None'):
+            fail('validate: singlefile path check shape')
+        multi = branches[4]
+        if not (isinstance(multi[0], ast.Expr) and isinstance(multi[1], ast.For)
+                and ast.unparse(multi[1].iter) == "enumerate(info['files'])"):
+            fail('validate: multifile branch shape')
+        files_rule = rule_of(multi[0].value, {})
+        frules = []
+        for st in multi[1].body:
+            if isinstance(st, ast.Expr):
+                frules.append(rule_of(st.value, {'i': 'XI'}))
+            elif isinstance(st, ast.For) and ast.unparse(st.iter) == "enumerate(fileinfo['path'])" and len(st.body) == 1:
+                path_rule = rule_of(st.body[0].value, {'i': 'XI', 'j': 'XJ'})
+            else:
+                fail('validate: unexpected statement in files loop: ' + ast.unparse(st)[:80])
+        rest = [ast.unparse(x) for x in multi[2:5]]
+        if not (rest[0] == "piece_count = int(len(info['pieces']) / 20)"
+                and rest[1] == "exp_piece_count = -(-sum((fileinfo['length'] for fileinfo in info['files'])) // info['piece length'])"
+                and rest[2].startswith('if piece_count != exp_piece_count:')):
+            fail('validate: multifile piece count check changed: ' + repr(rest))
+        if not (len(multi) == 6 and ast.unparse(multi[5].test) == 'self.path is not None'):
+            fail('validate: multifile path check shape')
+        emit('Definition ex_rules_common : list ex_rule := [' + ';\n  '.join(common) + '].')
+        emit('Definition ex_rule_al_i : ex_rule := ' + al_i + '.')
+        emit('Definition ex_rule_al_ij : ex_rule := ' + al_ij + '.')
+        emit('Definition ex_rules_single : list ex_rule := [' + ';\n  '.join(srules) + '].')
+        emit('Definition ex_rule_files : ex_rule := ' + files_rule + '.')
+        emit('Definition ex_rules_file_i : list ex_rule := [' + ';\n  '.join(frules) + '].')
+        emit('Definition ex_rule_path_j : ex_rule := ' + path_rule + '.')
 
-    emit('(* _magnet.py: regexes and how they are applied *)')
-    emit('From Torf Require Import Regex.')
-    for nm, coqname in (('_INFOHASH_REGEX', 'ex_infohash_re'), ('_XT_REGEX', 'ex_xt_re')):
-        pat, flags = regex_of(nm)
-        tree = _sp.parse(pat, flags)
-        emit(f'Definition {coqname} : re := RSeq [' + '; '.join(conv(list(tree), flags)) + '].')
-    src_xt = ast.unparse(find_func(MG, 'xt', setter=True))
-    src_ih = ast.unparse(find_func(MG, 'infohash', setter=True))
-    for nm, src, what in (('ex_infohash_method_in_xt', src_xt, 'self._INFOHASH_REGEX.'), ('ex_xt_method', src_xt, 'self._XT_REGEX.'),
-                          ('ex_infohash_method', src_ih, 'self._INFOHASH_REGEX.')):
-        i = src.find(what)
-        if i < 0:
-            fail(f'{nm}: regex use not found')
-        meth = src[i + len(what):].split('(')[0]
-        if meth not in ('match', 'fullmatch'):
-            fail(f'{nm}: unsupported regex method {meth}')
-        emit(f'Definition {nm} : rmethod := {"MMatch" if meth == "match" else "MFullmatch"}.')
-    want_xt = ("@xt.setter def xt(self, value): value = str(value) if self._INFOHASH_REGEX.match(value): self._infohash = value else: "
-               "match = self._XT_REGEX.match(value) if match: self._infohash = match.group(1) else: raise error.MagnetError(value, 'Invalid exact topic (\"xt\")')")
-    if ' '.join(src_xt.split()).replace('.fullmatch(', '.match(') != want_xt:
-        fail('Magnet.xt setter changed: ' + ' '.join(src_xt.split())[:300])
-    want_ih = ("@infohash.setter def infohash(self, value): value = str(value) match = self._INFOHASH_REGEX.match(value) if match: self._infohash = value "
-               "else: raise error.MagnetError(value, 'Invalid info hash')")
-    if ' '.join(src_ih.split()).replace('.fullmatch(', '.match(') != want_ih:
-        fail('Magnet.infohash setter changed: ' + ' '.join(src_ih.split())[:300])
-    kp = class_const(MG, '_KNOWN_PARAMETERS')
-    if ast.unparse(kp) != "('xt', 'dn', 'xl', 'tr', 'xs', 'as', 'ws', 'kt')":
-        fail('_KNOWN_PARAMETERS changed: ' + ast.unparse(kp))
+
+    _run_section('validate_rules', ['C07', 'C08', 'C05', 'C06', 'C17'], sec_validate_rules, out, failed, old_sections)
+
+    def sec_encode_converters():
+        # ---- _utils.ENCODE_ALLOWED_TYPES / ENCODE_CONVERTERS (dispatch order) ----
+        conv = None
+        allowed = None
+        for n in utils.body:
+            if isinstance(n, ast.Assign) and len(n.targets) == 1 and isinstance(n.targets[0], ast.Name):
+                if n.targets[0].id == 'ENCODE_CONVERTERS':
+                    conv = n.value
+                if n.targets[0].id == 'ENCODE_ALLOWED_TYPES':
+                    allowed = n.value
+        if conv is None or allowed is None or not isinstance(conv, ast.Dict):
+            fail('ENCODE_CONVERTERS / ENCODE_ALLOWED_TYPES not found')
+        if ast.unparse(allowed) != '(bytes, int)':
+            fail('ENCODE_ALLOWED_TYPES changed: ' + ast.unparse(allowed))
+        got = [(ast.unparse(k), ast.unparse(v)) for k, v in zip(conv.keys, conv.values)]
+        want = [('str', "lambda val: str(val).encode(encoding='utf-8', errors='replace')"), ('float', 'int'), ('bool', 'int'),
+                ('collections.abc.Mapping', 'encode_dict'), ('collections.abc.Sequence', 'encode_list'),
+                ('collections.abc.Collection', 'encode_list'), ('datetime', 'lambda dt: int(dt.timestamp())')]
+        if got != want:
+            fail(f'ENCODE_CONVERTERS changed: {got}')
+        emit('(* _utils.ENCODE_CONVERTERS: checked to be the table the model implements (str, float, bool, Mapping, Sequence, Collection, datetime) *)')
+        emit('Definition ex_converters_checked : bool := true.')
+        ed = find_func(utils, 'encode_dict')
+        if ast.unparse(ed).replace(' ', '').replace('\n', '') != ("defencode_dict(dct):dct_enc=collections.OrderedDict()forkeyindct:ifnotisinstance(key,str):raiseValueError(f'Invalidkey:{key!r}')"
+                "forkey,valueinsorted(dct.items()):key_enc=str(key).encode('utf8')value_enc=encode_value(value)"
+                "dct_enc[key_enc]=value_encreturndct_enc"):
+            fail('encode_dict changed')
+        ev = find_func(utils, 'encode_value')
+        if ast.unparse(ev).replace(' ', '').replace('\n', '') != ("defencode_value(value):iftype(value)inENCODE_ALLOWED_TYPES:returnvalueelse:"
+                "forcls,converterinENCODE_CONVERTERS.items():ifisinstance(value,cls):returnconverter(value)raiseValueError(f'Invalidvalue:{value!r}')"):
+            fail('encode_value changed')
+
+
+
+    _run_section('encode_converters', ['C05', 'C06', 'C07', 'C17'], sec_encode_converters, out, failed, old_sections)
+
+    def sec_write_order():
+        # ---- Torrent.write / write_stream / dump / read_stream: order of effects ----
+        emit('(* Torrent.write / write_stream / dump: order of effects *)')
+        emit('Inductive ex_wstep := WCheckExists | WDump | WOpenWrite.')
+        emit('Inductive ex_sstep := SDump | SSeekTruncate | SWrite.')
+        emit('Inductive ex_dstep := DValidate | DConvertEncode.')
+        f = find_func(T, 'write')
+        steps = []
+        for st in f.body:
+            u = ast.unparse(st)
+            if isinstance(st, ast.Expr) and isinstance(st.value, ast.Constant):
+                continue
+            if isinstance(st, ast.If) and u.startswith('if not overwrite and os.path.exists(filepath):') and 'raise error.WriteError(errno.EEXIST, filepath)' in u:
+                steps.append('WCheckExists')
+            elif u == 'content = io.BytesIO()' or u == 'content.seek(0)':
+                continue
+            elif u == 'self.write_stream(content, validate=validate)':
+                steps.append('WDump')
+            elif isinstance(st, ast.Try) and "open(filepath, 'wb')" in u and 'f.write(content.read())' in u and 'raise error.WriteError(e.errno, filepath)' in u:
+                steps.append('WOpenWrite')
+            else:
+                fail('Torrent.write: unexpected statement: ' + u[:100])
+        if sorted(steps) != sorted(['WCheckExists', 'WDump', 'WOpenWrite']):
+            fail(f'Torrent.write: steps {steps}')
+        emit('Definition ex_write_steps : list ex_wstep := [' + '; '.join(steps) + '].')
+        f = find_func(T, 'write_stream')
+        steps = []
+        for st in f.body:
+            u = ast.unparse(st)
+            if isinstance(st, ast.Expr) and isinstance(st.value, ast.Constant):
+                continue
+            if u == 'content = self.dump(validate=validate)':
+                steps.append('SDump')
+            elif isinstance(st, ast.Try) and 'raise error.WriteError(e.errno)' in u:
+                for t in st.body:
+                    tu = ast.unparse(t)
+                    if isinstance(t, ast.If) and ast.unparse(t.test) == 'stream.seekable()' and [ast.unparse(x) for x in t.body] == ['stream.seek(0)', 'stream.truncate(0)']:
+                        steps.append('SSeekTruncate')
+                    elif tu == 'stream.write(content)':
+                        steps.append('SWrite')
+                    else:
+                        fail('write_stream: unexpected statement in try: ' + tu[:100])
+            else:
+                fail('write_stream: unexpected statement: ' + u[:100])
+        if sorted(steps) != sorted(['SDump', 'SSeekTruncate', 'SWrite']):
+            fail(f'write_stream: steps {steps}')
+        emit('Definition ex_write_stream_steps : list ex_sstep := [' + '; '.join(steps) + '].')
+        f = find_func(T, 'dump')
+        body = [st for st in f.body if not (isinstance(st, ast.Expr) and isinstance(st.value, ast.Constant))]
+        if [' '.join(ast.unparse(x).split()) for x in body] != ['if validate: self.validate()', 'metainfo = self.convert()',
+                'try: return bencode.encode(metainfo) except ValueError as e: raise error.MetainfoError(e)']:
+            fail('Torrent.dump changed: ' + repr([ast.unparse(x) for x in body]))
+        emit('Definition ex_dump_steps : list ex_dstep := [DValidate; DConvertEncode].')
+        f = find_func(T, 'convert')
+        body = [st for st in f.body if not (isinstance(st, ast.Expr) and isinstance(st.value, ast.Constant))]
+        if ast.unparse(body[0]).replace('\n', ' ').split() != 'try: return utils.encode_dict(self.metainfo) except (ValueError, OverflowError) as e: raise error.MetainfoError(e)'.split():
+            fail('Torrent.convert changed')
+        f = find_func(T, 'is_ready')
+        body = [st for st in f.body if not (isinstance(st, ast.Expr) and isinstance(st.value, ast.Constant))]
+        if ast.unparse(body[0]).split() != 'try: self.validate() except error.MetainfoError: return False else: return True'.split():
+            fail('Torrent.is_ready changed')
+        f = find_func(T, 'infohash')
+        body = [st for st in f.body if not (isinstance(st, ast.Expr) and isinstance(st.value, ast.Constant))]
+        want = ("try: try: self.validate() try: info = bencode.encode(utils.encode_dict(self.metainfo['info'])) except (ValueError, OverflowError) as e: raise error.MetainfoError(e) "
+                "else: return hashlib.sha1(info).hexdigest() except error.MetainfoError as e: try: return self._infohash "
+                "except AttributeError: raise e")
+        got = ast.unparse(body[0]).split()
+        if got[0:2] == ['try:', 'try:']:
+            got = got[1:]   # tolerate the nested/unnested spelling difference of ast.unparse
+        if ' '.join(got) != ' '.join(want.split()[1:]):
+            fail('Torrent.infohash changed: ' + ' '.join(got)[:300])
+
+
+
+    _run_section('write_order', ['C17'], sec_write_order, out, failed, old_sections)
+
+    def sec_read_stream():
+        # ---- Torrent.read_stream: which exceptions of the decoder / converters are mapped to documented errors ----
+        f = find_func(T, 'read_stream')
+        src = ast.unparse(f)
+        tries = [n for n in ast.walk(f) if isinstance(n, ast.Try)]
+        dec = [t for t in tries if any(ast.unparse(x) == 'metainfo_enc = bencode.decode(content)' for x in t.body)]
+        if len(dec) != 1 or len(dec[0].handlers) != 1 or ast.unparse(dec[0].handlers[0].body[0]) != 'raise error.BdecodeError()':
+            fail('read_stream: try around bencode.decode not found')
+        ht = dec[0].handlers[0].type
+        names = [ast.unparse(x) for x in (ht.elts if isinstance(ht, ast.Tuple) else [ht])]
+        NM = {'bencode.DecodingError': 'XDecodingError', 'ValueError': 'XValueError', 'OverflowError': 'XOverflowError', 'MemoryError': 'XMemoryError'}
+        for n in names:
+            if n not in NM:
+                fail('read_stream: unexpected exception caught around decode: ' + n)
+        emit('(* Torrent.read_stream: exceptions mapped to documented errors *)')
+        emit('Inductive ex_exc := XDecodingError | XValueError | XOverflowError | XMemoryError | XRecursionError | XOSError.')
+        emit('Definition ex_read_decode_catches : list ex_exc := [' + '; '.join(NM[n] for n in names) + '].')
+        rec = [t for t in tries if any('utils.decode_dict(metainfo_enc)' in ast.unparse(x) for x in t.body)
+               and t is not dec[0]]
+        rc = []
+        if rec:
+            if not (len(rec) == 1 and len(rec[0].handlers) == 1 and ast.unparse(rec[0].handlers[0].body[0]) == 'raise error.BdecodeError()'):
+                fail('read_stream: unexpected try around decode_dict')
+            ht = rec[0].handlers[0].type
+            for n in [ast.unparse(x) for x in (ht.elts if isinstance(ht, ast.Tuple) else [ht])]:
+                if n != 'RecursionError':
+                    fail('read_stream: unexpected exception caught around decode_dict: ' + n)
+                rc.append('XRecursionError')
+        emit('Definition ex_read_convert_catches : list ex_exc := [' + '; '.join(rc) + '].')
+        cd = [t for t in tries if any("torrent.creation_date = metainfo_enc[b'creation date']" in ast.unparse(x) for x in t.body)]
+        cc = []
+        if cd:
+            if not (len(cd) == 1 and len(cd[0].handlers) == 1 and ast.unparse(cd[0].handlers[0].body[0]).startswith('raise error.MetainfoError(')):
+                fail('read_stream: unexpected try around creation_date')
+            ht = cd[0].handlers[0].type
+            M2 = {'ValueError': 'XValueError', 'OverflowError': 'XOverflowError', 'OSError': 'XOSError'}
+            for n in [ast.unparse(x) for x in (ht.elts if isinstance(ht, ast.Tuple) else [ht])]:
+                if n not in M2:
+                    fail('read_stream: unexpected exception caught around creation_date: ' + n)
+                cc.append(M2[n])
+        elif "torrent.creation_date = metainfo_enc[b'creation date']" not in src:
+            fail('read_stream: creation date assignment not found')
+        emit('Definition ex_read_cdate_catches : list ex_exc := [' + '; '.join(cc) + '].')
+        if "utils.assert_type(metainfo, ('info',), (dict,), must_exist=validate)" not in src:
+            fail('read_stream: info-is-dict assertion not found')
+        order = [src.index("utils.assert_type(metainfo, ('info',), (dict,), must_exist=validate)"), src.index("torrent.creation_date = metainfo_enc[b'creation date']"),
+                 src.index("torrent.private = metainfo_enc[b'info'][b'private']"), src.index('torrent.validate()')]
+        if order != sorted(order):
+            fail('read_stream: order of info assertion / creation date / private / validate changed')
+
+
+
+    _run_section('read_stream', ['C08', 'C05'], sec_read_stream, out, failed, old_sections)
+
+    def sec_magnet_regex():
+        # ---- _magnet.py: regexes (via re._parser), match methods, parameter tables ----
+        import re as _re
+        import re._parser as _sp
+        import re._constants as _sc
+        magnet = parse(repo, 'torf/_magnet.py')
+        MG = find_class(magnet, 'Magnet')
+
+        def regex_of(name):
+            node = class_const(MG, name)
+            if not (isinstance(node, ast.Call) and ast.unparse(node.func) == 're.compile' and isinstance(node.args[0], ast.Constant)):
+                fail(f'{name}: not a re.compile(<literal>) call')
+            flags = 0
+            for kw in node.keywords:
+                if kw.arg != 'flags':
+                    fail(f'{name}: unexpected keyword')
+                for part in ast.unparse(kw.value).split('|'):
+                    part = part.strip()
+                    if part not in ('re.IGNORECASE', 're.ASCII', 're.I', 're.A'):
+                        fail(f'{name}: unsupported flag {part}')
+                    flags |= _re.IGNORECASE if part in ('re.IGNORECASE', 're.I') else _re.ASCII
+            return node.args[0].value, flags
+
+        def expand(lo, hi, flags):
+            out = [(lo, hi)]
+            if flags & _re.IGNORECASE:
+                for a, b, d in ((97, 122, -32), (65, 90, 32)):
+                    l2, h2 = max(lo, a), min(hi, b)
+                    if l2 <= h2:
+                        out.append((l2 + d, h2 + d))
+                if not flags & _re.ASCII:
+                    letters = set()
+                    for (l2, h2) in list(out):
+                        letters.update(chr(c).lower() for c in range(max(l2, 65), min(h2, 122) + 1))
+                    if 's' in letters:
+                        out.append((0x17f, 0x17f))
+                    if 'k' in letters:
+                        out.append((0x212a, 0x212a))
+                    if 'i' in letters:
+                        out.append((0x130, 0x131))
+            return out
+
+        def conv(items, flags):
+            res = []
+            for op, av in items:
+                if op is _sc.AT:
+                    res.append({_sc.AT_BEGINNING: 'RBol', _sc.AT_END: 'REnd', _sc.AT_END_STRING: 'REndZ'}.get(av) or fail(f'regex: unsupported anchor {av}'))
+                elif op is _sc.LITERAL:
+                    res.append('RCls [' + '; '.join(f'({a}, {b})' for a, b in expand(av, av, flags)) + ']')
+                elif op is _sc.IN:
+                    rs = []
+                    for o2, a2 in av:
+                        if o2 is _sc.RANGE:
+                            rs += expand(a2[0], a2[1], flags)
+                        elif o2 is _sc.LITERAL:
+                            rs += expand(a2, a2, flags)
+                        else:
+                            fail(f'regex: unsupported class item {o2}')
+                    res.append('RCls [' + '; '.join(f'({a}, {b})' for a, b in rs) + ']')
+                elif op is _sc.MAX_REPEAT:
+                    lo, hi, sub = av
+                    if lo != hi:
+                        fail('regex: only exact repetition {n} is supported')
+                    res.append(f'RRep {lo} (RSeq [' + '; '.join(conv(sub, flags)) + '])')
+                elif op is _sc.BRANCH:
+                    res.append('RAlt [' + '; '.join('RSeq [' + '; '.join(conv(alt, flags)) + ']' for alt in av[1]) + ']')
+                elif op is _sc.SUBPATTERN:
+                    res.append('RGroup (RSeq [' + '; '.join(conv(av[3], flags)) + '])')
+                else:
+                    fail(f'regex: unsupported opcode {op}')
+            return res
+
+        emit('(* _magnet.py: regexes and how they are applied *)')
+        emit('From Torf Require Import Regex.')
+        for nm, coqname in (('_INFOHASH_REGEX', 'ex_infohash_re'), ('_XT_REGEX', 'ex_xt_re')):
+            pat, flags = regex_of(nm)
+            tree = _sp.parse(pat, flags)
+            emit(f'Definition {coqname} : re := RSeq [' + '; '.join(conv(list(tree), flags)) + '].')
+        src_xt = ast.unparse(find_func(MG, 'xt', setter=True))
+        src_ih = ast.unparse(find_func(MG, 'infohash', setter=True))
+        for nm, src, what in (('ex_infohash_method_in_xt', src_xt, 'self._INFOHASH_REGEX.'), ('ex_xt_method', src_xt, 'self._XT_REGEX.'),
+                              ('ex_infohash_method', src_ih, 'self._INFOHASH_REGEX.')):
+            i = src.find(what)
+            if i < 0:
+                fail(f'{nm}: regex use not found')
+            meth = src[i + len(what):].split('(')[0]
+            if meth not in ('match', 'fullmatch'):
+                fail(f'{nm}: unsupported regex method {meth}')
+            emit(f'Definition {nm} : rmethod := {"MMatch" if meth == "match" else "MFullmatch"}.')
+        want_xt = ("@xt.setter def xt(self, value): value = str(value) if self._INFOHASH_REGEX.match(value): self._infohash = value else: "
+                   "match = self._XT_REGEX.match(value) if match: self._infohash = match.group(1) else: raise error.MagnetError(value, 'Invalid exact topic (\"xt\")')")
+        if ' '.join(src_xt.split()).replace('.fullmatch(', '.match(') != want_xt:
+            fail('Magnet.xt setter changed: ' + ' '.join(src_xt.split())[:300])
+        want_ih = ("@infohash.setter def infohash(self, value): value = str(value) match = self._INFOHASH_REGEX.match(value) if match: self._infohash = value "
+                   "else: raise error.MagnetError(value, 'Invalid info hash')")
+        if ' '.join(src_ih.split()).replace('.fullmatch(', '.match(') != want_ih:
+            fail('Magnet.infohash setter changed: ' + ' '.join(src_ih.split())[:300])
+        kp = class_const(MG, '_KNOWN_PARAMETERS')
+        if ast.unparse(kp) != "('xt', 'dn', 'xl', 'tr', 'xs', 'as', 'ws', 'kt')":
+            fail('_KNOWN_PARAMETERS changed: ' + ast.unparse(kp))
+
+
+
+
+    _run_section('magnet_regex', ['C14', 'C13', 'C08'], sec_magnet_regex, out, failed, old_sections)
 
     emit('')
-    return '\n'.join(out) + '\n'
-
+    return '\n'.join(out) + '\n', failed
 
 def main():
+    import json
     repo, outp = sys.argv[1], sys.argv[2]
+    old_sections = {}
+    old = open(outp).read() if os.path.exists(outp) else None
+    if old:
+        cur = None
+        for line in old.split('\n'):
+            m1 = line.startswith('(* SECTION ') and line.endswith(' *)')
+            if m1:
+                cur = line[len('(* SECTION '):-3]
+                old_sections[cur] = []
+            elif line.startswith('(* END ') and cur:
+                cur = None
+            elif cur is not None:
+                old_sections[cur].append(line)
     try:
-        text = extract(repo)
+        text, failed = extract(repo, old_sections)
     except Fail as e:
         print(f'extraction failed: {e}')
         sys.exit(2)
-    old = open(outp).read() if os.path.exists(outp) else None
+    pins = source_pins(repo)
+    status = {'failed_sections': failed, 'pins': pins}
+    with open(os.path.join(os.path.dirname(outp), 'extract_status.json'), 'w') as f:
+        json.dump(status, f, indent=1)
     if old != text:
         with open(outp + '.tmp', 'w') as f:
             f.write(text)
@@ -776,6 +882,60 @@ def main():
         print('Extracted.v updated')
     else:
         print('Extracted.v unchanged')
+    for name, info in failed.items():
+        print(f'extraction failed in section {name}: {info["error"]}')
+
+
+def source_pins(repo):
+    """sha1 of the normalised source (ast.unparse) of the functions/classes that hand-written models mirror."""
+    import hashlib
+    pins = {}
+    targets = {
+        'torf/_stream.py': ['TorrentFileStream.iter_pieces', 'TorrentFileStream._iter_from_file_handle', 'TorrentFileStream._read_from_fh',
+                            'TorrentFileStream._get_open_file', 'TorrentFileStream._get_file_size_from_fs', 'TorrentFileStream.close',
+                            'TorrentFileStream.get_piece', 'TorrentFileStream.get_piece_hash', 'TorrentFileStream.verify_piece',
+                            'TorrentFileStream.get_absolute_piece_indexes', 'TorrentFileStream.get_relative_piece_indexes',
+                            'TorrentFileStream.get_file_position', 'TorrentFileStream._get_content_path', '_MissingPieces'],
+        'torf/_generate.py': ['Worker', 'Reader', 'HasherPool', 'Collector', '_IntervaledCallback', '_TranslatingCallback', 'GenerateCallback', 'VerifyCallback'],
+        'torf/_torrent.py': ['Torrent._set_files', 'Torrent.piece_size', 'Torrent.piece_size_min', 'Torrent.piece_size_max', 'Torrent.generate', 'Torrent.verify',
+                             'Torrent.verify_filesize', 'Torrent.trackers', 'Torrent._trackers_changed', 'Torrent.webseeds', 'Torrent._webseeds_changed',
+                             'Torrent.httpseeds', 'Torrent._httpseeds_changed', 'Torrent.path', 'Torrent.files', 'Torrent.filepaths', 'Torrent.reuse',
+                             'Torrent.partial_size', 'Torrent.magnet', 'Torrent.creation_date', 'Torrent.private', 'Torrent.size', 'Torrent.mode', 'Torrent.pieces'],
+        'torf/_utils.py': ['MonitoredList', 'URL', 'URLs', 'Trackers', 'is_url', 'assert_type', 'key_exists_in_list_or_dict', 'decode_value', 'decode_list',
+                           'decode_dict', 'encode_list', 'list_files', 'filter_files', 'real_size', 'File', 'Filepath', 'Filepaths', 'Files', 'flatten'],
+        'torf/_magnet.py': ['Magnet.__str__', 'Magnet.from_string', 'Magnet.torrent', 'Magnet.get_info', 'Magnet._set_info_from_torrent', 'Magnet.xl',
+                            'Magnet.dn', 'Magnet.tr', 'Magnet.ws', 'Magnet.xs', 'Magnet.as_', 'Magnet.kt', 'Magnet._infohash_hex', 'Magnet.__init__'],
+        'torf/_reuse.py': ['find_torrent_files', 'is_file_match', '_get_filepaths_and_sizes', 'is_content_match', 'copy', 'ReuseCallback'],
+        'torf/_errors.py': ['VerifyContentError', 'VerifyFileSizeError', 'ReadError'],
+    }
+    for rel, names in targets.items():
+        try:
+            mod = ast.parse(open(os.path.join(repo, rel)).read())
+        except (OSError, SyntaxError):
+            for n in names:
+                pins[rel + ':' + n] = 'unparsable'
+            continue
+        for n in names:
+            parts = n.split('.')
+            nodes = [x for x in mod.body if isinstance(x, (ast.ClassDef, ast.FunctionDef)) and x.name == parts[0]]
+            if len(parts) == 2 and nodes:
+                nodes = [x for x in nodes[0].body if isinstance(x, ast.FunctionDef) and x.name == parts[1]]
+            if not nodes:
+                pins[rel + ':' + n] = 'missing'
+                continue
+            src = '\n'.join(ast.unparse(strip_docstrings(x)) for x in nodes)
+            pins[rel + ':' + n] = hashlib.sha1(src.encode()).hexdigest()
+    return pins
+
+
+def strip_docstrings(node):
+    import copy
+    node = copy.deepcopy(node)
+    for x in ast.walk(node):
+        if isinstance(x, (ast.FunctionDef, ast.ClassDef)) and x.body and isinstance(x.body[0], ast.Expr) \
+                and isinstance(x.body[0].value, ast.Constant) and isinstance(x.body[0].value.value, str):
+            x.body = x.body[1:] or [ast.Pass()]
+    return node
 
 
 if __name__ == '__main__':
